@@ -13,7 +13,7 @@ mod model;
 
 pub const OP_NAMES: &[&str] = &[
     "Submit", "Recv", "Tick", "Update", "Flush", "Deliver", "Drop", "DropAll", "DeliverAll", "Hold", "Broadcast", "Mutate", "Forge",
-    "Junk", "Api", "RecvAll", "ForgeSlice", "ForgeClash", "SubmitBurst", "Churn", "SubmitHuge", "ForgeFat", "SubmitGiant",
+    "Junk", "Api", "RecvAll", "ForgeSlice", "ForgeClash", "SubmitBurst", "Churn", "SubmitHuge", "ForgeFat", "SubmitGiant", "SubmitSwarm",
 ];
 pub const K_SUBMIT: u8 = 0;
 pub const K_RECV: u8 = 1;
@@ -38,6 +38,7 @@ pub const K_CHURN: u8 = 19;
 pub const K_SUBMITHUGE: u8 = 20;
 pub const K_FORGEFAT: u8 = 21;
 pub const K_SUBMITGIANT: u8 = 22;
+pub const K_SUBMITSWARM: u8 = 23;
 
 pub const UNREL: u8 = 0;
 pub const REL_ORD: u8 = 1;
@@ -233,6 +234,7 @@ pub struct WorldA {
     pub api: apply::ApiState,
     /// clients whose late `set_connected` the generator has already emitted (generator state)
     pub late_done: u64,
+    pub uptime_done: u64,
 }
 
 #[derive(Clone, Copy, PartialEq, Eq, Debug)]
@@ -301,6 +303,7 @@ impl WorldA {
             ev_state: HashMap::new(),
             api: apply::ApiState::default(),
             late_done: 0,
+            uptime_done: 0,
         };
         w.server = RenetServer::new(w.conn_config());
         let ncl = cfg.get("ncl").max(1) as usize;
@@ -465,7 +468,11 @@ impl World for WorldA {
 
 /// Deterministic self-describing payload.
 pub fn payload(conn: u64, dir: u64, ch: u64, ordinal: u64, len: usize) -> Bytes {
-    let mut v = Vec::with_capacity(len);
+    // every third payload is handed to the library as a window into a larger buffer (a `Bytes` with an offset and spare
+    // bytes behind it), the others own their buffer exactly
+    let lead = if ordinal % 3 == 1 { 5 } else { 0 };
+    let mut v = Vec::with_capacity(len + 2 * lead);
+    v.resize(lead, 0xEE);
     let hdr = [
         0xA5u8,
         conn as u8,
@@ -487,7 +494,8 @@ pub fn payload(conn: u64, dir: u64, ch: u64, ordinal: u64, len: usize) -> Bytes 
             v.push((x >> (8 * ((i - hdr.len()) % 8))) as u8);
         }
     }
-    Bytes::from(v)
+    v.resize(len + 2 * lead, 0xEE);
+    Bytes::from(v).slice(lead..lead + len)
 }
 
 // --- configuration generation -----------------------------------------------------------------
@@ -606,5 +614,14 @@ pub fn gen_cfg(family: &str, rng: &mut Rng) -> Cfg {
         }
         _ => {}
     }
+    // uptime: the endpoints have been running for a long time when the run starts (derived from the hash seed, no PRNG draw):
+    // just below 2^32 ms (the run crosses it), about 35 days (above 2^31 ms), 2^53 ms
+    let up = match cfg.get("hseed") % 8 {
+        5 => (1u64 << 32) - 3000,
+        6 => 1u64 << 53,
+        7 => 3_000_000_000,
+        _ => 0,
+    };
+    cfg.set("uptime", up);
     cfg
 }
